@@ -154,6 +154,22 @@ def fixed_items():
     # a chain of imports is fine
     yield ('import-chain|length 3', True, None, [('c0.stone', 'namespace c0\n\nimport c1\n\nstruct X0\n    f c1.X1\n'), ('c1.stone', 'namespace c1\n\nimport c2\n\nstruct X1\n    f c2.X2\n'),
                                                  ('c2.stone', 'namespace c2\n\nstruct X2\n    f Int32\n')])
+    # tag defaults and union-typed route attributes along union inheritance chains: every void tag of the union or of an ancestor is a legal value,
+    # typed tags, tags of descendants and unknown names are not
+    upre = ('union Pu\n    pa\n    pb Int32\n\nunion Cu extends Pu\n    ca\n    cb String\n\nunion Gu extends Cu\n    ga\n\nunion_closed Ku\n    ka\n    kb Int32\n\n'
+            'union Ko extends Ku\n    koa\n\nalias Acu = Cu\n\nalias Agu = Gu\n\n')
+    legal = {'Pu': ['pa'], 'Cu': ['pa', 'ca'], 'Gu': ['pa', 'ca', 'ga'], 'Ku': ['ka'], 'Ko': ['ka', 'koa'], 'Acu': ['pa', 'ca'], 'Agu': ['pa', 'ca', 'ga']}
+    every = ['pa', 'pb', 'ca', 'cb', 'ga', 'ka', 'kb', 'koa', 'zz']
+    for u, ok_tags in sorted(legal.items()):
+        for tag in every:
+            ok = tag in ok_tags
+            yield ('tag-default|%s = %s' % (u, tag), ok, None if ok else 'default-tag-is-void-tag',
+                   [('m.stone', 'namespace mx\n\n' + upre + 'struct S\n    f %s = %s\n' % (u, tag))])
+            yield ('tag-default|imported %s = %s' % (u, tag), ok, None if ok else 'default-tag-is-void-tag',
+                   [('m.stone', 'namespace mx\n\n' + upre), ('n.stone', 'namespace nx\n\nimport mx\n\nstruct S\n    f mx.%s = %s\n' % (u, tag))])
+            yield ('tag-attr|%s = %s' % (u, tag), ok, None if ok else 'attr-union-is-void-tag',
+                   [('m.stone', 'namespace mx\n\n' + upre + 'route r(Void, Void, Void)\n    attrs\n        u = %s\n' % tag),
+                    ('cfg.stone', 'namespace stone_cfg\n\nimport mx\n\nstruct Route\n    u mx.%s?\n' % u)])
     # names of imported namespaces versus definitions
     yield ('import-names|imported namespace defines a type named like the importer', True, None,
            [('a.stone', 'namespace na\n\nimport nb\n\nstruct S\n    f nb.na\n'), ('b.stone', 'namespace nb\n\nstruct na\n    x Int32\n')])
